@@ -743,7 +743,8 @@ func (d *Document) createWordFieldTOC(config *TOCConfig, entries []TOCEntry) []i
 	// 添加TOC域结束段落
 	endPara := &Paragraph{
 		Properties: &ParagraphProperties{
-			ParagraphStyle: &ParagraphStyle{Val: "2"},
+			// 样式库中没有ID为"2"的样式（悬空引用在Word中按默认段落样式显示），这里引用已定义的默认段落样式
+			ParagraphStyle: &ParagraphStyle{Val: "Normal"},
 			Spacing: &Spacing{
 				Before: "240",
 				After:  "0",
